@@ -374,6 +374,17 @@ def equal(it, a, b):
         return a == b
     if a is None or b is None:
         return a is b
+    # opaque values of unknown type compared as terms; a concrete operand is embedded as a constant of its own
+    for x, y in ((a, b), (b, a)):
+        if isinstance(x, SVal) and x.pytype is object and x.info.get("eq") == "term":
+            if isinstance(y, SVal):
+                return x.e == y.e
+            if isinstance(y, (SInt, SBool, SStr, SObj, Abstract, GList)):
+                break
+            try:
+                return x.e == it.embed(y)
+            except TypeError:
+                break
     if isinstance(a, Abstract):
         return a.p_eq(it, b)
     if isinstance(b, Abstract):
